@@ -405,6 +405,51 @@ def enum_unmerges(seed):
                     probs.append(f"the package's own file {os.path.relpath(payload, root)} was left behind")
                 if probs and len(fails) < 4:
                     fails.append({"model": model, "detail": "; ".join(probs)})
+        # the same protection through the engine's own hooks: an old package recording a protected base directory the new one no longer
+        # lists (empty once the old-only files are gone), uninstalled and replaced by MergeEngine with its triggers registered
+        from pkgcore.merge import triggers as _mt
+        for mode in ("uninstall", "replace"):
+            for prot in ("usr/lib32", "var", "etc", "usr/share"):
+                cases += 1
+                root = os.path.join(scratch, f"e-{mode}-{prot.replace('/', '_')}")
+                img, img2, tmp = root + ".old", root + ".new", root + ".tmp"
+                for d_ in (os.path.join(img, prot), os.path.join(img2, "usr/bin"), tmp, root):
+                    os.makedirs(d_)
+                open(os.path.join(img, prot, "old-only"), "w").write("old")
+                open(os.path.join(img2, "usr/bin/tool"), "w").write("new")
+                old_pkg = types.SimpleNamespace(contents=contents.contentsSet(livefs.scan(img, offset=img)), cpvstr="cat/pkg-1")
+                new_pkg = types.SimpleNamespace(contents=contents.contentsSet(livefs.scan(img2, offset=img2)), cpvstr="cat/pkg-2")
+                ops.merge_contents(old_pkg.contents, offset=root)
+                model = {"engine": mode, "protected_path": "/" + prot, "old_package": sorted(x.location for x in old_pkg.contents), "new_package": sorted(x.location for x in new_pkg.contents) if mode == "replace" else None}
+                try:
+                    if mode == "uninstall":
+                        eng = engine.MergeEngine.uninstall(tmp, old_pkg, offset=root, observer=_Obs(), disable_plugins=True)
+                        trgs = (_mt.BaseSystemUnmergeProtection(), _mt.unmerge())
+                        hooks = ("sanity_check", "pre_unmerge", "unmerge", "post_unmerge", "final")
+                    else:
+                        eng = engine.MergeEngine.replace(tmp, old_pkg, new_pkg, offset=root, observer=_Obs(), disable_plugins=True)
+                        trgs = (_mt.BaseSystemUnmergeProtection(), _mt.merge(), _mt.unmerge())
+                        hooks = ("sanity_check", "pre_merge", "merge", "post_merge", "pre_unmerge", "unmerge", "post_unmerge", "final")
+                    for trg in trgs:
+                        trg.register(eng)
+                    for hook in hooks:
+                        eng.execute_hook(hook)
+                except Exception as e:
+                    if len(fails) < 4:
+                        fails.append({"model": model, "detail": f"MergeEngine.{mode} raised {type(e).__name__}: {e}"})
+                    continue
+                probs = []
+                protected = prot in ("usr/lib32", "var", "etc")
+                if protected and not os.path.isdir(os.path.join(root, prot)):
+                    probs.append(f"the protected base directory /{prot} was removed")
+                if not protected and os.path.lexists(os.path.join(root, prot)):
+                    probs.append(f"the package's own empty directory /{prot} was left behind")
+                if os.path.lexists(os.path.join(root, prot, "old-only")):
+                    probs.append(f"/{prot}/old-only was left behind")
+                if mode == "replace" and not os.path.exists(os.path.join(root, "usr/bin/tool")):
+                    probs.append("the new package's /usr/bin/tool is missing")
+                if probs and len(fails) < 4:
+                    fails.append({"model": model, "detail": f"MergeEngine.{mode} (old package {model['old_package']}" + (f", new package {model['new_package']}" if mode == "replace" else "") + "): " + "; ".join(probs)})
     finally:
         shutil.rmtree(scratch, ignore_errors=True)
     return {"name": "C20.unmerges.bounded_enumeration", "bound": "40 seeded scratch roots: an old package of 3..6 of 9 entries (files, hardlinks, symlinks, fifos, nested directories under usr / etc / opt) merged, "
